@@ -251,6 +251,15 @@ def binop(st, op, a, b):
             return Sym("real", x / y)
     else:
         x, y = zint(a), zint(b)
+        if isinstance(op, (ast.FloorDiv, ast.Mod)):
+            # Python's floor division / modulo coincide with z3's integer div / mod for a positive divisor
+            st.assume(y > 0) if False else None
+            pos = simp(y > 0)
+            if not z3.is_true(pos):
+                s_ = z3.Solver(); s_.add(*st.pc); s_.add(z3.Not(y > 0))
+                if s_.check() != z3.unsat:
+                    raise Unsupported("floor division / modulo by a divisor not known to be positive")
+            return Sym("int", x / y if isinstance(op, ast.FloorDiv) else x % y)
         if isinstance(op, ast.Add):
             return Sym("int", x + y)
         if isinstance(op, ast.Sub):
